@@ -651,17 +651,17 @@ func (w *World) boundsDiscipline(P string, f *Facts, r *Roles) {
 					}
 				}
 				if why == "" && kind == "index" {
-				// len(x) - 1 - n with n the counter of an ascending loop over x (the mirror image of the element)
-				if bo, ok := idx.(*ssa.BinOp); ok && bo.Op == token.SUB && isLenMinusConst(bo.X, nil) && ascendingCounter(bo.Y) {
-					if k, _ := constInt(bo.X.(*ssa.BinOp).Y); k == 1 {
-						lenArg := bo.X.(*ssa.BinOp).X.(*ssa.Call).Call.Args[0]
-						if (stripConv(lenArg) == stripConv(base) || sameObj(lenArg, base)) && lenGuarded(in.Block(), bo.Y, base) {
-							why = "len(x) - 1 - n with n the counter of an ascending loop bounded by len(x)"
+					// len(x) - 1 - n with n the counter of an ascending loop over x (the mirror image of the element)
+					if bo, ok := idx.(*ssa.BinOp); ok && bo.Op == token.SUB && isLenMinusConst(bo.X, nil) && ascendingCounter(bo.Y) {
+						if k, _ := constInt(bo.X.(*ssa.BinOp).Y); k == 1 {
+							lenArg := bo.X.(*ssa.BinOp).X.(*ssa.Call).Call.Args[0]
+							if (stripConv(lenArg) == stripConv(base) || sameObj(lenArg, base)) && lenGuarded(in.Block(), bo.Y, base) {
+								why = "len(x) - 1 - n with n the counter of an ascending loop bounded by len(x)"
+							}
 						}
 					}
 				}
-			}
-			if why == "" && fn.Parent() != nil && literalBoundSafe(fn, idx, base) {
+				if why == "" && fn.Parent() != nil && literalBoundSafe(fn, idx, base) {
 					why = "bound and string are parameters of a function literal; where the helper it was handed to calls it, the bound is the (non-negative) position strings.Index found in the string passed with it, that position plus the length of the match, or guarded by the length"
 				}
 				if why == "" && kind == "index" && w.paramIndexSafeAtCallers(fn, idx, base) {
